@@ -8,6 +8,9 @@ import common
 import render
 import tlc
 
+# TLC -simulate is seeded (VERIF_SEED): runs are reproducible
+SIM_SEED = int(__import__("os").environ.get("VERIF_SEED", "1"))
+
 
 def q(s):
     return '"%s"' % s
@@ -71,7 +74,7 @@ def explore(scenarios, wd, cap=None, rnd=None, simulate=None, timeout=900, gener
 
     def one(job):
         sc, name = job
-        extra = ["-simulate", "num=%d" % simulate, "-depth", "300"] if simulate else []
+        extra = ["-simulate", "num=%d" % simulate, "-depth", "300", "-seed", str(SIM_SEED), "-aril", "0"] if simulate else []
         rc, out, secs = tlc.run_tlc(name + ".tla", name + ".cfg", workers=1, timeout=timeout, extra=extra,
                                     heap="3g", cwd=sdir)
         if "Error:" in out or ("No error has been found" not in out and not simulate):
